@@ -122,8 +122,10 @@ Section GateLines.
   Definition lru_stored (l : lr_state) : Prop :=
     forall k n s, alookup k (l_lru l) = Some (LF n s) -> stored_at l k.
 
-  Lemma lru_stored_init stream : lru_stored (lr_init_k stream).
+  Lemma lru_stored_init_b b : lru_stored (lr_init_b b).
   Proof. intros k n s H. discriminate. Qed.
+  Lemma lru_stored_init stream : lru_stored (lr_init_k stream).
+  Proof. apply lru_stored_init_b. Qed.
 
   Lemma lru_stored_same l l' : l_lines l' = l_lines l ->
     (forall k r, alookup k (l_lru l') = Some r -> alookup k (l_lru l) = Some r) -> lru_stored l -> lru_stored l'.
@@ -211,12 +213,12 @@ Section GateLines.
     forall l2 ip, l_blk l2 = l_blk l -> snd (lr_read bs f l2 ip bo) = BFound.
 
   Lemma store_found_frame st fo n ps p st' r p' : lr_store_found bs st fo n ps p = (st', r, p') ->
-    forall y, stored_at st' y -> stored_at st y \/ line_fo_begin bs ps = Some y.
+    forall y, stored_at st' y -> stored_at st y \/ (line_fo_begin bs ps = Some y /\ exists s, r = Found (n, s)).
   Proof.
     unfold lr_store_found, lr_insert_line.
-    destruct (line_fo_begin bs ps) as [b|]; [destruct (line_fo_end bs ps) as [e|]|]; intro H; injection H as <- _ _; try (intros y Y; left; exact Y).
+    destruct (line_fo_begin bs ps) as [b|]; [destruct (line_fo_end bs ps) as [e|]|]; intro H; injection H as <- <- _; try (intros y Y; left; exact Y).
     intros y. unfold stored_at. unfold lr_put. destruct (l_on _); cbn; rewrite alookup_ainsert;
-      (destruct (N.eqb_spec y b); [intros _; right; congruence|intro Y; left; exact Y]).
+      (destruct (N.eqb_spec y b); [intros _; right; split; [congruence|eauto]|intro Y; left; exact Y]).
   Qed.
 
   Lemma mid_begin fo e : line_fo_begin bs [(block_offset_at_file_offset fo bs, block_index_at_file_offset fo bs, e)] = Some fo.
@@ -226,7 +228,7 @@ Section GateLines.
   Qed.
 
   Lemma c_flib_core_frame st fo st' x p : c_flib_core bs f st fo = (st', x, p) ->
-    forall y, stored_at st' y -> stored_at st y \/ y = fo.
+    forall y, stored_at st' y -> stored_at st y \/ (y = fo /\ exists n s, fst x = Found (n, s)).
   Proof.
     unfold c_flib_core. cbv zeta.
     repeat match goal with
@@ -235,44 +237,49 @@ Section GateLines.
     | |- context [if ?X then _ else _] => destruct X eqn:?
     | |- context [match ?X with _ => _ end] => destruct X eqn:?
     end;
-    intro H; injection H as <- _ _;
+    intro H; injection H as <- <- _;
     try (match goal with FL : lr_fresh_line _ _ = _ |- _ => unfold lr_fresh_line in FL; injection FL as <- _ end);
     try (intros y Y; left; exact Y);
     match goal with SF : lr_store_found _ _ _ _ _ _ = _ |- _ =>
-      intros y Y; destruct (store_found_frame _ _ _ _ _ _ _ _ SF y Y) as [Q|Q]; [left; exact Q|right] end.
+      intros y Y; destruct (store_found_frame _ _ _ _ _ _ _ _ SF y Y) as [Q|[Q (s0 & ->)]]; [left; exact Q|right] end.
     all: try (match goal with E : (?z =? 0) = true |- _ => apply N.eqb_eq in E; subst z end).
-    all: rewrite mid_begin in Q; congruence.
+    all: rewrite mid_begin in Q; split; [congruence|cbn [fst]; eauto].
   Qed.
 
   Lemma lb_blk_frame l fo l' x p : c_find_line_in_block bs f l fo = (l', x, p) ->
-    (forall y, stored_at l' y -> stored_at l y \/ y = fo) /\
-    (l_blk l' = l_blk l \/
+    (forall y, stored_at l' y -> stored_at l y \/ (y = fo /\ exists n s, fst x = Found (n, s))) /\
+    (l_blk l' = l_blk l /\ l_lines l' = l_lines l \/
      (~ stored_at l fo /\ exists l2 ip, l_blk l2 = l_blk l /\
         l_blk l' = l_blk (fst (lr_read bs f l2 ip (block_offset_at_file_offset fo bs))))).
   Proof.
+    assert (SAME : forall l'', l_blk l'' = l_blk l -> l_lines l'' = l_lines l ->
+      (forall y, stored_at l'' y -> stored_at l y \/ (y = fo /\ exists n s, fst x = Found (n, s))) /\
+      (l_blk l'' = l_blk l /\ l_lines l'' = l_lines l \/
+       (~ stored_at l fo /\ exists l2 ip, l_blk l2 = l_blk l /\
+          l_blk l'' = l_blk (fst (lr_read bs f l2 ip (block_offset_at_file_offset fo bs)))))).
+    { intros l'' B LL. split; [|left; split; assumption]. intros z Z. left. unfold stored_at in *. rewrite <- LL. exact Z. }
+    assert (ANS : forall l1 s pp l2 r2 p2, lr_answer l1 fo bs s pp = (l2, r2, p2) -> l_lines l2 = l_lines l1).
+    { intros l1 s pp l2 r2 p2. unfold lr_answer. destruct (line_fo_end bs (sl_parts s)); intro Q; injection Q as <- _ _; [|reflexivity].
+      unfold lr_put. destruct (l_on l1); reflexivity. }
     unfold c_find_line_in_block.
     destruct (lr_check_lru l fo) as [l1 [y|]] eqn:CL.
     - pose proof (blk_check_lru _ _ _ _ CL) as B1. intro H; injection H as <- _ _.
-      split; [|left; exact B1]. intros z Z. left. revert CL Z. unfold lr_check_lru, stored_at.
+      apply SAME; [exact B1|]. revert CL. unfold lr_check_lru.
       destruct (l_on l); [|discriminate].
-      destruct (lru_get fo (l_lru l)) as [[w|] c]; [|discriminate]. intro Q; injection Q as <- _. auto.
+      destruct (lru_get fo (l_lru l)) as [[w|] c]; [|discriminate]. intro Q; injection Q as <- _. reflexivity.
     - pose proof (blk_check_lru _ _ _ _ CL) as B1.
       assert (L1 : l_lines l1 = l_lines l).
       { revert CL. unfold lr_check_lru. destruct (l_on l); [|intro Q; injection Q as <-; reflexivity].
         destruct (lru_get fo (l_lru l)) as [[w|] c]; [discriminate|]. intro Q; injection Q as <-. reflexivity. }
       destruct ((lenN f =? 0) || (lenN f <? fo) || (fo =? lenN f)).
-      { intro H; injection H as <- _ _. split; [|left; exact B1]. intros z Z. left. unfold stored_at in *. rewrite <- L1. exact Z. }
+      { intro H; injection H as <- _ _. apply SAME; assumption. }
       unfold lr_check_store.
       destruct (alookup fo (l_lines l1)) as [s|] eqn:LK.
       { destruct (lr_answer _ _ _ _ _) as [[l2 r2] p2] eqn:AN. intro H; injection H as <- _ _.
-        split; [|left; rewrite (blk_answer _ _ _ _ _ _ _ _ AN); exact B1].
-        intros z Z. left. revert AN Z. unfold lr_answer, stored_at. destruct (line_fo_end bs (sl_parts s));
-          intro Q; injection Q as <- _ _; unfold lr_put; cbn; destruct (l_on l1); cbn; rewrite L1; auto. }
+        apply SAME; [rewrite (blk_answer _ _ _ _ _ _ _ _ AN); exact B1|rewrite (ANS _ _ _ _ _ _ AN); exact L1]. }
       destruct (lr_get_linep (lr_cnt lc_miss_up l1) fo) as [s|] eqn:GL.
       { destruct (lr_answer _ _ _ _ _) as [[l2 r2] p2] eqn:AN. intro H; injection H as <- _ _.
-        split; [|left; rewrite (blk_answer _ _ _ _ _ _ _ _ AN); exact B1].
-        intros z Z. left. revert AN Z. unfold lr_answer, stored_at. destruct (line_fo_end bs (sl_parts s));
-          intro Q; injection Q as <- _ _; unfold lr_put; cbn; destruct (l_on l1); cbn; rewrite L1; auto. }
+        apply SAME; [rewrite (blk_answer _ _ _ _ _ _ _ _ AN); exact B1|rewrite (ANS _ _ _ _ _ _ AN); exact L1]. }
       assert (NS : ~ stored_at l fo) by (unfold stored_at; rewrite <- L1, LK; intro Q; apply Q; reflexivity).
       set (l2 := lr_cnt lc_miss_up l1).
       destruct (lr_read bs f l2 (fun _ => false) (block_offset_at_file_offset fo bs)) as [l3 rr] eqn:RD.
@@ -480,7 +487,8 @@ Section GateLines.
   (* at the end of the file: Done, nothing changes but counters and the order of the LRU list *)
   Lemma lb_eof0 l l' r part p : lr_inv0 l -> lru_stored l ->
     c_find_line_in_block bs f l (lenN f) = (l', (r, part), p) ->
-    r = Done /\ part = None /\ lr_inv0 l' /\ lru_stored l' /\ (forall x, stored_at l x -> stored_at l' x).
+    r = Done /\ part = None /\ lr_inv0 l' /\ lru_stored l' /\ (forall x, stored_at l x -> stored_at l' x) /\
+    l_lines l' = l_lines l.
   Proof.
     intros I S C.
     destruct (c_find_line_in_block_ok0 bs f Hbs _ _ _ _ _ _ I C) as (I' & R & _).
@@ -494,7 +502,7 @@ Section GateLines.
           unfold lr_check_lru in CL; destruct (l_on l);
             try (destruct (lru_get (lenN f) (l_lru l)) as [[y|] c] eqn:G; [discriminate|];
                  apply lru_get_None in G as [_ ->]); injection CL as <-; auto. }
-    split; [reflexivity|]. split; [reflexivity|]. split; [exact I'|]. split.
+    split; [reflexivity|]. split; [reflexivity|]. split; [exact I'|]. split; [|split; [|exact LL]].
     - intros k0 n0 s0 X. unfold stored_at. rewrite LL. rewrite LU in X. exact (S _ _ _ X).
     - unfold stored_at. rewrite LL. auto.
   Qed.
@@ -504,8 +512,8 @@ Section GateLines.
     pred_stored l fo -> (~ stored_at l fo -> reads_ok l (block_offset_at_file_offset fo bs)) ->
     c_find_line_in_block bs f l fo = (l', (r, part), p) ->
     lr_inv0 l' /\ lru_stored l' /\ (forall x, stored_at l x -> stored_at l' x) /\
-    (forall y, stored_at l' y -> stored_at l y \/ y = fo) /\
-    (l_blk l' = l_blk l \/
+    (forall y, stored_at l' y -> stored_at l y \/ (y = fo /\ exists n s, r = Found (n, s))) /\
+    (l_blk l' = l_blk l /\ l_lines l' = l_lines l \/
      (~ stored_at l fo /\ exists l2 ip, l_blk l2 = l_blk l /\
         l_blk l' = l_blk (fst (lr_read bs f l2 ip (block_offset_at_file_offset fo bs))))) /\
     ((exists s, r = Found (line_end f fo + 1, s) /\ sline_ok s fo (line_end f fo) /\ stored_at l' fo) \/
@@ -551,7 +559,7 @@ Section GateLines.
     { intros _. apply reads_ok_tot; [exact T|apply (blockoffset_last_ge (lenN f) bs fo Hbs L)|lia]. }
     destruct (lb_seq0 _ _ _ _ _ _ I S L LB PS RD0 H) as (A & B & C & _ & BK & R).
     split; [|auto]. split; [exact A|].
-    destruct BK as [E|(_ & l2 & ip & E2 & E)]; unfold lr_tot in *; rewrite E; [exact T|].
+    destruct BK as [[E _]|(_ & l2 & ip & E2 & E)]; unfold lr_tot in *; rewrite E; [exact T|].
     destruct (lr_read bs f l2 ip (block_offset_at_file_offset fo bs)) as [l3 rr] eqn:RD.
     destruct (lr_read_ok bs f _ _ _ _ _ RD) as (_ & X). cbn.
     apply X; [unfold lr_tot; rewrite E2; exact T|apply (blockoffset_last_ge (lenN f) bs fo Hbs L)|lia].
@@ -561,7 +569,7 @@ Section GateLines.
     c_find_line_in_block bs f l (lenN f) = (l', (r, part), p) ->
     r = Done /\ part = None /\ lr_inv l' /\ lru_stored l' /\ (forall x, stored_at l x -> stored_at l' x).
   Proof.
-    intros [I T] S C. destruct (lb_eof0 _ _ _ _ _ I S C) as (A & B & I' & S' & M).
+    intros [I T] S C. destruct (lb_eof0 _ _ _ _ _ I S C) as (A & B & I' & S' & M & _).
     split; [exact A|]. split; [exact B|]. split; [|auto]. split; [exact I'|].
     destruct (lb_eof_blk _ _ _ _ C) as [E|E]; [|lia]. unfold lr_tot. rewrite E. exact T.
   Qed.
@@ -1157,16 +1165,19 @@ Section GateSys.
   Qed.
 
   (* a reader on which nothing was called yet *)
-  Lemma gate_pre_init stream : LI (lr_init_k stream) -> RG (lr_init_k stream) 0 -> gate_pre (sr_init_k stream) 0.
+  Lemma gate_pre_init_b b0 : LI (lr_init_b b0) -> RG (lr_init_b b0) 0 -> gate_pre (sr_init_b b0) 0.
   Proof.
     intros I0 G0.
     split; [|split; [|split]].
     - split; [split; [split; cbn; intros; try discriminate; try contradiction; exact I0|exact Logic.I]|].
-      split; [intros a b v []|]. split; [apply lru_stored_init|]. split; intros; discriminate.
+      split; [intros a b v []|]. split; [apply lru_stored_init_b|]. split; intros; discriminate.
     - split; [intros a b v []|]. split; intros k x X; discriminate.
     - intros b g G LT. lia.
     - split; [lia|]. split; [right; apply (first_line_beg bs f Hbs); reflexivity|]. split; [intros _; left; reflexivity|exact G0].
   Qed.
+
+  Lemma gate_pre_init stream : LI (lr_init_k stream) -> RG (lr_init_k stream) 0 -> gate_pre (sr_init_k stream) 0.
+  Proof. apply gate_pre_init_b. Qed.
 End GateSys.
 
 (* ---------------------------------------------------------------- a file whose blocks can all be read *)
